@@ -17,7 +17,10 @@ type psel struct {
 }
 
 type pdecl struct {
-	prop      string // size | margin-top | margin-right | margin-bottom | margin-left
+	// size | margin-top | margin-right | margin-bottom | margin-left | border-<side> (the shorthand
+	// "border-<side>: Npx solid": width and style always travel together, so the winner of the width
+	// is the winner of the style) | padding-<side>
+	prop      string
 	v, v2     float64
 	important bool
 }
@@ -94,6 +97,7 @@ func specLess(a, b [3]int) bool {
 type pgeom struct {
 	w, h           float64 // size
 	mt, mr, mb, ml float64
+	deco           pageDeco // borders and paddings
 }
 
 // cascadePage computes the declared geometry of a page of type t under the rule list.
@@ -145,6 +149,10 @@ func cascadePage(rules []prule, t ptype, nthG int) pgeom {
 		g.w, g.h = w.d.v, w.d.v2
 	}
 	g.mt, g.mr, g.mb, g.ml = get("margin-top"), get("margin-right"), get("margin-bottom"), get("margin-left")
+	g.deco = pageDeco{
+		bt: get("border-top"), br: get("border-right"), bb: get("border-bottom"), bl: get("border-left"),
+		pt: get("padding-top"), pr: get("padding-right"), pb: get("padding-bottom"), pl: get("padding-left"),
+	}
 	return g
 }
 
@@ -157,10 +165,12 @@ var baseRule = prule{text: "@page{size:100px 60px;margin:5px}", sels: []psel{{}}
 
 var ruleMenu = []prule{
 	{"@page :first{margin-top:10px}", []psel{{first: true}}, []pdecl{{"margin-top", 10, 0, false}}},
-	{"@page :left{margin-left:20px}", []psel{{side: "left"}}, []pdecl{{"margin-left", 20, 0, false}}},
-	{"@page :right{margin-left:2px}", []psel{{side: "right"}}, []pdecl{{"margin-left", 2, 0, false}}},
+	// the three rules below also carry one-sided borders/paddings (top != bottom, left != right):
+	// :left and n compete on border-top on the left pages named n
+	{"@page :left{margin-left:20px;border-top:4px solid;padding-bottom:2px}", []psel{{side: "left"}}, []pdecl{{"margin-left", 20, 0, false}, {"border-top", 4, 0, false}, {"padding-bottom", 2, 0, false}}},
+	{"@page :right{margin-left:2px;border-left:3px solid;padding-right:1px}", []psel{{side: "right"}}, []pdecl{{"margin-left", 2, 0, false}, {"border-left", 3, 0, false}, {"padding-right", 1, 0, false}}},
 	{"@page :blank{margin:1px}", []psel{{blank: true}}, margin4(1, false)},
-	{"@page n{size:80px 70px;margin-top:7px}", []psel{{name: "n"}}, []pdecl{{"size", 80, 70, false}, {"margin-top", 7, 0, false}}},
+	{"@page n{size:80px 70px;margin-top:7px;border-top:1px solid;border-bottom:3px solid}", []psel{{name: "n"}}, []pdecl{{"size", 80, 70, false}, {"margin-top", 7, 0, false}, {"border-top", 1, 0, false}, {"border-bottom", 3, 0, false}}},
 	{"@page n:first{margin-top:3px;margin-left:4px}", []psel{{name: "n", first: true}}, []pdecl{{"margin-top", 3, 0, false}, {"margin-left", 4, 0, false}}},
 	{"@page :nth(2){margin-top:8px;margin-bottom:9px}", []psel{{hasNth: true, a: 0, b: 2}}, []pdecl{{"margin-top", 8, 0, false}, {"margin-bottom", 9, 0, false}}},
 	{"@page :nth(2n+1){margin-left:9px}", []psel{{hasNth: true, a: 2, b: 1}}, []pdecl{{"margin-left", 9, 0, false}}},
@@ -240,15 +250,19 @@ type axisIn struct {
 	innerAuto      bool
 	mA, mB         float64
 	mAAuto, mBAuto bool
-	padA           float64
+	padA, padB     float64
+	bordA, bordB   float64
 	maxInner       float64 // <0: none
 	minInner       float64
 }
 
+// deco: padding + border of the axis, both sides.
+func (in axisIn) deco() float64 { return in.padA + in.padB + in.bordA + in.bordB }
+
 func solveAxis(in axisIn) (inner, mA, mB float64) {
 	solve := func(inner float64, innerAuto bool) (float64, float64, float64) {
 		mA, mB := in.mA, in.mB
-		rem := in.cb - in.padA
+		rem := in.cb - in.deco()
 		switch {
 		case innerAuto:
 			if in.mAAuto {
